@@ -224,7 +224,7 @@ class Puppet:
         try:
             async with lock:
                 phase = 'body'
-                self.emit('r', op='enter')
+                self.emit('r', op='enter', l=op['l'])
                 implicit = await self.block()
                 phase = 'leave'
                 self.emit('b', op='leave', implicit=implicit, blk='lock', id=op['l'])
@@ -235,7 +235,7 @@ class Puppet:
             elif phase == 'leave':
                 self.emit('u', op=phase, blk='lock', id=op['l'], exc=self.w.enc(err))
             else:
-                self.emit('u', op=phase, exc=self.w.enc(err))
+                self.emit('u', op=phase, l=op['l'], exc=self.w.enc(err))
             raise
 
     async def op_open(self, op):
@@ -315,4 +315,23 @@ def run_program(prog, nroots, nflags=2, nlocks=2, start=0):
                 coro.close()
             except BaseException:   # clean-up outside the simulation may touch the missing loop
                 pass
+    # end-of-run record (harness event, not part of the model's `ev`)
+    fin = {'e': 'fin', 'a': 0, 'ok': outcome['k'] == 'ok', 'out': outcome}
+    if outcome['k'] == 'ok':
+        fin['free'] = probe_locks(world)
+    world.log.append(fin)
     return world.log, outcome
+
+
+def probe_locks(world):
+    """`lock.available` for every lock, asked by a fresh activity in a fresh simulation"""
+    res = []
+
+    async def probe():
+        for i in sorted(world.locks):
+            res.append(bool(world.locks[i].available))
+    try:
+        usim.run(probe())
+    except BaseException:
+        return [False] * len(world.locks)
+    return res
